@@ -202,7 +202,12 @@ struct Exec {
   }
   void op_pullup(const Op &o) {
     BufW &b = w.B[o.b]; size_t L = b.m.len(); long size = (o.a1 & 7) == 0 ? -1 : (long)resolve(o.n, geo[o.b], L);
+    if ((o.a1 & 7) <= 2 && (o.a1 & 7) >= 1) { size = (long)(geo[o.b].first_off + 1 + o.a2 % 24); if ((size_t)size > L) size = (long)L; }   // just past the first chain
+    struct evbuffer_chain *fc = b.eb->first; bool fc_imm = fc && (fc->flags & EVBUFFER_IMMUTABLE); size_t fc_off = fc ? fc->off : 0;
     uint64_t f0 = sim_mem_failed; unsigned char *p = evbuffer_pullup(b.eb, size);
+    // evbuffer-internal.h: an EVBUFFER_IMMUTABLE chain is read-only (reference memory, or memory shared with other buffers)
+    static const long no_imm_check = verif_param("noimm", 0);   // experiment switch: rely on the content oracle alone
+    if (!no_imm_check && fc_imm && b.eb->first == fc) CHECK(fc->off <= fc_off, K("immutable-chain-written"), "evbuffer_pullup(buf%d,%ld) extended an IMMUTABLE first chain in place from %zu to %zu bytes", o.b, size, fc_off, fc->off);
     TR("  pullup(buf%d [%zu], %ld [%s]) -> %s", o.b, L, size, specs(o.n).c_str(), p ? "ptr" : "NULL");
     if (faulted(f0) && !p) return;
     size_t eff = size < 0 ? L : (size_t)size;
